@@ -155,7 +155,13 @@ def check_tree(label, name, est, s, X, y, Kmat, qseed, subsets):
             continue
         Xs = np.ascontiguousarray(X[idx])
         ys = None if y is None else np.ascontiguousarray(np.asarray(y)[idx][:, idx])
-        Ks = np.ascontiguousarray(Kmat[idx][:, idx])
+        if s["kernel"]["form"] in ("named", "callable"):
+            # the named kernel / the callable evaluated on the given rows (a sub-block of the full matrix differs in the last
+            # digits on badly conditioned data: scikit-learn's rbf uses the dot-product expansion of distances)
+            from sklearn.metrics import pairwise_kernels as _pk
+            Ks = np.ascontiguousarray(_pk(Xs, metric=s["kernel"]["name"]) if s["kernel"]["form"] == "named" else E.kauri_ref_kernel(s, Xs))
+        else:
+            Ks = np.ascontiguousarray(Kmat[idx][:, idx])
         try:
             sc_s = est.score(Xs, ys)
         except Exception as e:
